@@ -7,6 +7,7 @@ from ..gen import schemas
 from ..gen import steps as gs
 from ..gen.docs import docgen
 from ..ref import plain as P
+from ..ref import resolve as RR
 from ..ref import validate as V
 
 ID = "C12"
@@ -191,12 +192,35 @@ def check(case: dict, ctx: Ctx) -> None:
                     perform("drop_point", lambda tr, p=dp, s=sl: tr.replace(p, p, s), (pos, si, dp), keep_leaves=False)
     # ---- ranges: lift_target / find_wrapping
     conts = [t for t in rs.node_names if not rs.leaf[t] and not rs.inline[t] and t != rs.top]
-    for a, b in case["pairs"]:
+    # every range of consecutive sibling blocks of the document (first..last child index of every container), besides
+    # the drawn position pairs: lifting depends on where in its parent - and in the parent's parent - a range sits
+    sib: list = []
+    for k_, s_, _par, _i, _d in RR.all_nodes(RR.N(doc_p, rs)) + [(RR.N(doc_p, rs), -1, None, 0, 0)]:
+        if k_.is_text or rs.leaf[k_.t] or rs.inline_content[k_.t] or not k_.p["c"]:
+            continue
+        starts = []
+        q = s_ + 1
+        for c in k_.p["c"]:
+            starts.append(q)
+            q += P.size_of([c], lt)
+        ends = starts[1:] + [q]
+        for i in range(len(starts)):
+            for j in range(i, len(starts)):
+                sib.append([starts[i], ends[j]])
+    if len(sib) > 80:
+        sib = sib[:: len(sib) // 80 + 1]
+    seen_ranges: set = set()
+    for idx, (a, b) in enumerate(list(case["pairs"]) + sib):
+        drawn = idx < len(case["pairs"])
         o = call("block_range", lambda a=a, b=b: doc.resolve(a).block_range(doc.resolve(b)))
         require(o.ok, "block_range:raised", repr(o.exc))
         rng = o.value
         if rng is None:
             continue
+        key = (rng.start, rng.end, rng.depth)
+        if key in seen_ranges:
+            continue
+        seen_ranges.add(key)
         nev += 1
         o = call("lift_target", lift_target, rng)
         require(o.ok, "lift_target:raised", f"lift_target(range {a},{b}) raised {o.exc!r}")
@@ -204,7 +228,7 @@ def check(case: dict, ctx: Ctx) -> None:
             tgt = o.value
             require(isinstance(tgt, int) and 0 <= tgt < rng.depth, "lift_target:out-of-range", f"lift_target({a},{b}) = {tgt} for range depth {rng.depth}")
             perform("lift", lambda tr, r=rng, t=tgt: tr.lift(r, t), ("range", a, b, tgt))
-        for wt in conts:
+        for wt in conts if drawn or idx % 4 == 0 else []:
             nev += 1
             attrs = rs.default_attrs("node", wt)
             if attrs is None:
